@@ -8,6 +8,7 @@ oracle : effect-placement programs through the real pipeline; every stage dump r
 import json, os, re
 import vlib
 from props import c01, dce
+from props import gocomp
 
 STAGES = c01.STAGES
 
@@ -84,7 +85,7 @@ def _replay_is_dce(path):
 
 def run(ctx):
     ctx.extract()
-    lean_ok = ctx.build_lean(["GomlVerif.Props.C09", dce.PROP_MODULE])
+    lean_ok = ctx.build_lean(["GomlVerif.Props.C09", dce.PROP_MODULE] + ([gocomp.PROP_MODULE] if os.path.exists(os.path.join(vlib.LEAN, gocomp.PROP_MODULE.replace(".", "/") + ".lean")) else []))
     if not ctx.build_harness():
         return ctx.finish("proof", {"evaluations": 0, "distinct_nontrivial": 0, "samples": []}, [], "lake build")
     extra = []
@@ -272,6 +273,9 @@ def run(ctx):
             ctx.report(sig, what, payload)
         cov["dce"] = dce_cov
         cov["impl_oracle_failures"] = len(ctx.violations)
+    # ---- the Go back end (go/compile.rs): model = implementation, Sem(ANF) vs Go.Sem(Go) on its stream
+    gocomp.add_to(ctx, "C09", cov)
+    cov["impl_oracle_failures"] = len(ctx.violations)
     ctx.assumptions += [
         "Sem (Model/Sem.lean) is the source-level meaning: call-by-value, left to right, short-circuit, fail at the failing operation; Go.Sem is our reading of the Go spec",
         "`go`: outcomes are compared under the two schedules the semantics offers (activation runs to completion at the spawn; activation never runs before the "
